@@ -107,6 +107,16 @@ def run_case(ctx, res, case, lines, post):
         if fmode == 'raise' and emap != failed_keys:
             res.failures.append({'kind': 'error-records-not-aligned-with-failed-inputs', 'signature': 'none', 'input': info,
                                  'observed': sorted(map(str, emap)), 'expected': sorted(map(str, failed_keys))})
+        # 1b. the record itself names the fidelity (and the input point) that failed: it is what a user re-runs
+        if fmode == 'raise':
+            for a, m in comp.training_data.error_map.items():
+                for c, recd in m.items():
+                    mk = recd.get('model_kwargs', {}) if isinstance(recd, dict) else {}
+                    if 'model_fidelity' in mk and tuple(int(v) for v in np.atleast_1d(mk['model_fidelity'])) != tuple(a):
+                        res.failures.append({'kind': 'error-record-names-another-fidelity-than-the-one-that-failed', 'signature': 'none',
+                                             'input': info, 'observed': {'stored_under': list(a), 'coord': list(c),
+                                                                         'record_model_fidelity': [int(v) for v in np.atleast_1d(mk['model_fidelity'])]}})
+            res.hit('error-record-contents')
         if fmode != 'raise' and emap:
             res.failures.append({'kind': 'error-record-without-an-exception', 'signature': 'none', 'input': info,
                                  'observed': sorted(map(str, emap))})
@@ -240,6 +250,11 @@ def run(ctx: core.Ctx, only=None) -> core.Result:
     cases = [o.get('input', o) for o in only] if only is not None else core.corpus_cases('C14') + \
         [gen_case(ctx.rng) for _ in range(ctx.scale(5, 30))]
     keys = ('nin', 'alpha_lim', 'beta_lim', 'kpl', 'nout', 'nsteps', 'fseed', 'mode')
+    if only is None:
+        # a fixed share of every run: a multi-fidelity component trained through an executor (batches mixing fidelities)
+        gen = [c for c in cases if 'fseed' in c][-ctx.scale(5, 30):]
+        if gen:
+            gen[0]['mode'], gen[0]['alpha_lim'] = 'executor', (1,)
     if only is None or any(c.get('special_outputs') for c in cases):
         with core.guarded(res, 'scenario-raised', {'special_outputs': True}):
             run_special_outputs_case(ctx, res)
